@@ -66,6 +66,22 @@ if ben:
         checks = '; '.join('%s: %s' % (k, v[:120]) for k, v in sorted(d.get('checks', {}).items()))
         out.append('| `%s` | %s | %s |' % (d['name'], d.get('what_changed', '')[:300].replace('|', '\\|').replace('\n', ' '), checks.replace('|', '\\|')))
     out.append('')
+rows = []
+for pid in sorted(set(os.path.basename(f)[:-5] for f in glob.glob(os.path.join(VERIF, 'evidence', 'quick', 'C*.json')))):
+    def ev(t):
+        f = os.path.join(VERIF, 'evidence', t, pid + '.json')
+        return json.load(open(f)) if os.path.exists(f) else None
+    q, th = ev('quick'), ev('thorough')
+    def cell(e):
+        if not e:
+            return '-'
+        c = e['coverage']
+        return '%d cases, %d distinct non-trivial, %.0f s%s' % (c['evaluations'], c['distinct_nontrivial'], e['wall_s'],
+                                                               ' (exhaustive: %d stages)' % len(c.get('exhaustive_scope', [])) if c.get('exhaustive_scope') else '')
+    rows.append('| %s | %s | %s |' % (pid, cell(q), cell(th)))
+if rows:
+    out += ['### 8.3 What the two tiers covered on the repaired tree (latest runs in /verif, 16 cores)', '',
+            '| property | quick | thorough |', '|---|---|---|'] + rows + ['']
 extra = os.path.join(VERIF, 'tools', 'sensitivity_notes.md')
 if os.path.exists(extra):
     out.append(open(extra).read())
